@@ -245,6 +245,27 @@ def hunts(quick, focus, timeout):
             cfg = make('GP', 'tree', c, 8700 + i, timeout)
             cfg['repro'] = i % 4 == 0
             out.append(cfg)
+    # histories of tasks: the observed task continues a space that earlier tasks (the same optimizer, PSO, WCA) have optimised;
+    # boxes that exclude the origin, objectives with ties
+    n_re = (3 if len(opts) > 3 else 12) if quick else (12 if len(opts) > 3 else 60)
+    for o in opts:
+        for i in range(n_re):
+            s = WR[o]['spaces'][i % len(WR[o]['spaces'])]
+            c = {'objective': ['sphere', 'plateau', 'negative', 'constant', 'shifted', 'linear'][i % 6], 'ret': ['pyfloat', 'npscalar'][(i // 3) % 2],
+                 'box': ['asym', 'narrow', 'asym', 'sym10'][i % 4], 'agents': [5, 'min', 2, 20][(i // 2) % 4], 'n_variables': [2, 1, 5][i % 3],
+                 'n_dimensions': [1, 2][i % 2], 'n_iterations': [3, 1, 10][(i // 2) % 3], 'draws': 'seeded', 'hp': ['default', 'rnd'][(i // 6) % 2],
+                 'store_best_only': False, 'hook': 'observe', 'functions': 'arith', 'depth': (1, 3), 'n_terminals': 2}
+            cfg = make(o, s, c, 8900 + i, timeout)
+            if s == 'tree':
+                pre = ['GP']
+            else:
+                pre = [[o], ['WCA'], ['PSO'], [o, o]][i % 4]
+            cfg['prelude'] = [{'optimizer': p, 'hyperparams': hyperparams(p, 'default', rnd, cfg['n_agents'])} for p in pre]
+            if any(p['optimizer'] == 'WCA' for p in cfg['prelude']) and cfg['n_agents'] < 2:
+                cfg['n_agents'] = 2
+            cfg['n_agents'] = max([cfg['n_agents']] + [WR[p['optimizer']]['min_agents'] for p in cfg['prelude']])
+            cfg['repro'] = False
+            out.append(cfg)
     if 'RPSO' in opts:
         for i in range(6 if quick else 40):
             c = {'objective': rnd.choice(OBJECTIVES), 'ret': ['pyfloat', 'npscalar'][i % 2], 'box': 'wide', 'agents': [2, 5][i % 2],
